@@ -58,6 +58,8 @@ def check(chk: Check) -> None:
     results = pmap(pipejob.run, jobs)
     by_key: dict[tuple, dict[str, dict]] = {}
     for res, job in zip(results, jobs):
+        if res is None:
+            continue
         chk.functions.update(res["funcs"])
         jb = res["job"]
         key = (jb["physical"], jb["name"], jb["delimited"], jb["frame_size"], jb.get("logical"), tuple(jb["preset"]), "gen" if jb["via"] == "generator" else "container")
@@ -111,6 +113,8 @@ def check(chk: Check) -> None:
             for pol in (refenc.Policy(framing="per-row"), refenc.Policy(framing="empty-and-options", entries="redundant", ids="alternate"), refenc.Policy(framing="per-statement", evict="fifo", repeats="never"), refenc.Policy(framing="one", delimited=False)):
                 fjobs.append(dict(physical=physical, logical=0, name=name, stmts=stmts, policy=pol, sizes=(8, 4 if physical == 1 else 5, 2), parsers=SIX, rdf11=True, ns=False))
     for res in pmap(c04.run, fjobs, min_parallel=4):
+        if res is None:
+            continue
         jb = res["job"]
         for p in res["paths"]:
             chk.paths += 1
